@@ -10,10 +10,13 @@ from .common import sample
 LEVEL = "model_checking"
 
 
-def gen_trees(chk, max_tokens, simulate=None, depth=None, maxdepth=3):
-    name = tlc.temp_cfg("CONSTANTS\n MaxTokens = %d\n MaxKids = 3\n NConds = 6\n MaxDepth = %d\n"
+DEEP_CONDS = [["v", "c"], ["not", ["v", "c"]], ["v", "d"]]
+
+
+def gen_trees(chk, max_tokens, simulate=None, depth=None, maxdepth=3, conds=trees.CONDS):
+    name = tlc.temp_cfg("CONSTANTS\n MaxTokens = %d\n MaxKids = 3\n NConds = %d\n MaxDepth = %d\n"
                         "INIT Init\nNEXT Next\nCHECK_DEADLOCK FALSE\nINVARIANT Dump\n"
-                        % (max_tokens, maxdepth))
+                        % (max_tokens, len(conds), maxdepth))
     if simulate:
         res = tlc.run_tlc("TreeGen", cfg=name, workers=1, simulate="num=%d" % simulate,
                           depth=depth, seed=chk.seed)
@@ -27,7 +30,7 @@ def gen_trees(chk, max_tokens, simulate=None, depth=None, maxdepth=3):
         if key in seen:
             continue
         seen.add(key)
-        out.append(trees.parse_tokens(toks))
+        out.append(trees.parse_tokens(toks, conds))
     return out
 
 
@@ -77,6 +80,10 @@ def judge(chk, cases):
 def run(chk):
     max_tokens = 6 if chk.quick else 8
     ts = gen_trees(chk, max_tokens)
+    # the same token bound without the nesting bound, over the pool {c, not c, d} (deep chains of conditionals on one flag)
+    known = {repr(t) for t in ts}
+    deep = [t for t in gen_trees(chk, max_tokens if chk.quick else 7, maxdepth=8, conds=DEEP_CONDS) if repr(t) not in known]
+    ts += deep
     n_exh = len(ts)
     sim = gen_trees(chk, 14, simulate=400 if chk.quick else 20000, depth=15, maxdepth=5)
     known = {repr(t) for t in ts}
@@ -97,7 +104,8 @@ def run(chk):
     chk.coverage.update({
         "evaluations": len(cases),
         "distinct_nontrivial": nontrivial,
-        "rule": "trees = all TreeGen behaviours with <= %d preorder tokens (Block<=3 children, nesting<=3, "
+        "rule": "trees = all TreeGen behaviours with <= %d preorder tokens (Block<=3 children, nesting<=3, 6 conditions; "
+                "plus all with unbounded nesting over the conditions {c, not c, d}, <= 6/7 tokens; "
                 "conditions c, d, ~c, ~~c, True, False) + simulated trees up to 14 tokens; each judged "
                 "under all valuations of its flags; non-trivial = at least two leaves; distinct by "
                 "construction (TLC state = token sequence)" % max_tokens,
